@@ -230,12 +230,22 @@ Fixpoint from_pairs (s : list N) : option (list N) :=
 Definition subnets_from_string (s : list N) : option (list N) :=
   from_pairs (replace_first [48; 120] s).
 
+(* newSubnets[i] = v in UpdateSubnets *)
+Fixpoint set_nth (i : nat) (v : N) (l : list N) : list N :=
+  match l, i with
+  | [], _ => []
+  | _ :: tl, O => v :: tl
+  | x :: tl, S j => x :: set_nth j v tl
+  end.
+
 Definition normalize_subnets (s : list N) : list N := map (fun v => if 0 <? v then 1 else 0) s.
 
 (* ---- operations of the correspondence check ---------------------------------------------------- *)
 
 Inductive op :=
 | OKey (pk : list N)                        (* every topic function and call site for one key *)
+| OKeyAny (pk : list N)                     (* the same without Broadcast and validation, whose
+                                               message id only holds 48-byte keys *)
 | OSubnetHex (s : list N)                   (* ValidatorSubnet on an arbitrary string *)
 | OAccept (pk topic : list N)               (* the validator's topic check on an arbitrary topic *)
 | OBase (topic : list N)                    (* GetTopicBaseName on an arbitrary string *)
@@ -247,6 +257,8 @@ Inductive op :=
 Inductive obs :=
 | RKey (subnet : Z) (ids : list (list N)) (full base : list (list N))
        (pub sub unsub peers : list (list N)) (accepts : list bool) (advertised : Z)
+| RKeyAny (subnet : Z) (ids : list (list N)) (full base : list (list N))
+          (sub unsub peers : list (list N)) (advertised : Z)
 | RSubnet (subnet : Z)
 | RAccept (ok : bool)
 | RBase (b : list N)
@@ -264,6 +276,11 @@ Definition step (o : op) : obs :=
            (publish_topics pk) (subscribe_topics pk) (unsubscribe_topics pk) (peers_topics pk)
            (map (fun t => validator_accepts (wire_topic t) pk) (publish_topics pk))
            (advertised_subnet pk)
+  | OKeyAny pk =>
+      let ids := validator_topic_id pk in
+      let full := map full_name ids in
+      RKeyAny (validator_subnet (hex_encode pk)) ids full (map base_name full)
+              (subscribe_topics pk) (unsubscribe_topics pk) (peers_topics pk) (advertised_subnet pk)
   | OSubnetHex s => RSubnet (validator_subnet s)
   | OAccept pk topic => RAccept (validator_accepts topic pk)
   | OBase topic => RBase (base_name topic)
